@@ -1,7 +1,7 @@
 #!/usr/bin/env python3
 """Regenerates MANIFEST.json from vconfig.py (single source of truth for the registered checks)."""
 import json, os, sys
-HERE = os.path.dirname(os.path.abspath(__file__))
+HERE = os.path.dirname(os.path.dirname(os.path.abspath(__file__)))
 sys.path.insert(0, HERE)
 from vconfig import PROPS, NOT_APPLICABLE, ENGINES, NOTES
 
